@@ -47,6 +47,7 @@ var c14Vars = map[string]string{
 	"g": "p{{e}}q",
 	"h": "😀😀{{a}}", // multi-byte characters in front of markers in the last bytes of a value
 	"i": "ää{{d}}ö{{e}}",
+	"j": "100% %d%%s %v%", // data which looks like a format string
 }
 
 // expressions with known value text
@@ -80,7 +81,7 @@ func C14(r *ev.Run) {
 	r.Assume("exact output is demanded for literals whose {{...}} expressions all come from a table of expressions with known value text; any other arrangement of markers only has to yield a string in bounded time")
 	codes := c14Codes()
 	pieces := []string{"{{", "}}", "{", "}", "t", " ", "\"", "\\", "\n", "{{a}}", "{{b}}", "{{c}}", "{{d}}", "{{e}}", "{{f}}", "{{g}}", "{{1+2}}",
-		"{{verif.tick()}}", "{{verif.next()}}", "{{h}}", "{{i}}", "😀", "{{ a }}", "{{zz}}", "{{1 +}}", "{{verif.tick() + a}}", "{{a", "b}}", "#", "ä"}
+		"{{verif.tick()}}", "{{verif.next()}}", "{{h}}", "{{i}}", "{{j}}", "%", "%d", "😀", "{{ a }}", "{{zz}}", "{{1 +}}", "{{verif.tick() + a}}", "{{a", "b}}", "#", "ä"}
 	var setup strings.Builder
 	for k, v := range c14Vars {
 		fmt.Fprintf(&setup, "%s := r\"%s\"\n", k, v)
